@@ -241,7 +241,11 @@ mod vx_proofs {
         let len: usize = kani::any();
         kani::assume(len <= L);
         if let Ok(s) = core::str::from_utf8(&bytes[..len]) {
+            let c0 = PERR_CALLS.load(core::sync::atomic::Ordering::Relaxed);
             let r = En::from_str(s);
+            let c1 = PERR_CALLS.load(core::sync::atomic::Ordering::Relaxed);
+            // C18: the user's error function runs exactly once for a rejected input and never for an accepted one
+            assert!(c1 - c0 == if r.is_err() && %(custom)s { 1 } else { 0 });
             assert!(r == expected(s));
             let t = En::try_from(s);
             assert!(t == r);
@@ -257,13 +261,16 @@ mod vx_proofs {
         let mut i = 0;
         while i < L { kani::assume(bytes[i] < 0x80); i += 1; }
         if let Ok(s) = core::str::from_utf8(&bytes[..len]) {
+            let c0 = PERR_CALLS.load(core::sync::atomic::Ordering::Relaxed);
             let r = En::from_str(s);
+            let c1 = PERR_CALLS.load(core::sync::atomic::Ordering::Relaxed);
+            assert!(c1 - c0 == if r.is_err() && %(custom)s { 1 } else { 0 });
             assert!(r == expected(s));
         }
     }
 %(extra)s
 }
-''' % dict(E=E, inst=inst, L=L, fold=FOLD_EQ, exp=rust_expected(prog, inst), err=err_ty, unw=L + 2, extra=extra)
+''' % dict(E=E, inst=inst, L=L, fold=FOLD_EQ, exp=rust_expected(prog, inst), err=err_ty, unw=L + 2, extra=extra, custom=('true' if (prog.parse_err_fn and dv is None) else 'false'))
 
 EQ_IGNORE_HARNESS = '''
     // cross-check of the assumed std contract `eq_ignore_ascii_case(a, b) == (fold(a) == fold(b))` on the real std code
